@@ -5,6 +5,7 @@ import Ptn.C08.StepLemmas
 import Ptn.C08.Value
 import Ptn.C08.SwapValue
 import Ptn.C08.StepValue
+import Ptn.C08.LoopValue
 /-! Property theorems for C08 (a TEBD step is the ordered product of its Trotter gates and SWAPs).
 Only property theorems and non-vacuity examples live here; helper lemmas are in `Lemmas.lean`
 (splitting, SWAP), `LegLemmas.lean` and `Stages.lean` (leg bookkeeping).
@@ -440,6 +441,153 @@ theorem tebd_steps_value {R : Type} [CommSemiring R] (t : List TNode) (hwf : Tre
   rw [(List.mem_replicate.mp hl).2] at hol
   exact hv op hol
 
+/-! ### (viii) value level with provenance: the model's own operation sequence ("loop value")
+
+In (v) and (vii) the `tensordot` identities of `contract_nodes` / `absorb_into_open_legs` are hypotheses.  Here
+they are discharged: the leg lists the MODEL FUNCTIONS compute are `Built` (`Built.lean`, `BuiltFns.lean`: one
+lemma per model function) by the contraction program `tensordot(tensordot(P, C, bond), G, binds)` over the node
+tensors and the gate tensor, the program is strongly well-formed, and its value is `Σ_in G·Σ_bond TP·TC` for all
+tensor values.  The only hypothesis about a library routine that remains is the exact split. -/
+
+open Ptn.Ein in
+/-- **Two-site gate: the model's operation sequence up to the split, value level.**  Pair `P` / `C` as in
+`two_site_gate_legs`, either naming order.  The model completes with a result `r`, and for ALL values `TP`, `TC`
+of the two node tensors and `G` of the gate tensor (legs `gateLegs r.contr.nopen`, what the model hands over),
+the program `E = tensordot(tensordot(P, C, [(nb c, nb p)]), G, r.binds)`
+
+* builds the legs of the absorbed node (`Built`: the model's `tensordot` calls and transpositions, nothing else),
+* has pairwise distinct labels, the absorbed node's legs as its free legs, and is strongly well-formed as soon
+  as the three tensors read only their own legs,
+* evaluates to `Σ_{r.binds} G · (Σ_bond TP·TC)`: gate input `k` against the `k`-th physical leg in naming order.
+
+Network level (global labels as in `two_site_gate_value`, but WITHOUT the two `tensordot` identities): if that
+value factorises exactly over the new bond into `U`, `V` (contract of `split_node_svd`, truncation disabled),
+the network with `U`, `V` in the place of `TP`, `TC` has the value `Σ_in G[out; in] · ψ[…, in, …]`. -/
+theorem two_site_gate_loop_value {R : Type} [CommSemiring R] (p c : Nat) (pp : Option Nat) (A B K : List Nat)
+    (oP oC : Nat) (h : PairOK p c pp A B K) :
+    (∃ r, twoSite p (mkNode p pp (A ++ c :: B) oP) c (mkNode c (some p) K oC) = some r ∧
+      (∀ (TP TC G : Asg Leg → R),
+        Built r.absorbed.legs (gateExpr (mkNode p pp (A ++ c :: B) oP).legs (mkNode c (some p) K oC).legs
+            [(Leg.nb c, Leg.nb p)] r.contr.nopen r.binds TP TC G) ∧
+        (gateExpr (mkNode p pp (A ++ c :: B) oP).legs (mkNode c (some p) K oC).legs
+            [(Leg.nb c, Leg.nb p)] r.contr.nopen r.binds TP TC G).labels.Nodup ∧
+        r.absorbed.legs.Perm (gateExpr (mkNode p pp (A ++ c :: B) oP).legs (mkNode c (some p) K oC).legs
+            [(Leg.nb c, Leg.nb p)] r.contr.nopen r.binds TP TC G).free ∧
+        ((gateExpr (mkNode p pp (A ++ c :: B) oP).legs (mkNode c (some p) K oC).legs
+            [(Leg.nb c, Leg.nb p)] r.contr.nopen r.binds TP TC G).LeavesLocal →
+          (gateExpr (mkNode p pp (A ++ c :: B) oP).legs (mkNode c (some p) K oC).legs
+            [(Leg.nb c, Leg.nb p)] r.contr.nopen r.binds TP TC G).SWF) ∧
+        ∀ (dim : Leg → Nat) (σ : Asg Leg),
+          (gateExpr (mkNode p pp (A ++ c :: B) oP).legs (mkNode c (some p) K oC).legs
+            [(Leg.nb c, Leg.nb p)] r.contr.nopen r.binds TP TC G).eval dim σ =
+          sumPairs dim r.binds (fun τ => G τ * sumPairs dim [(Leg.nb c, Leg.nb p)] (fun ρ => TP ρ * TC ρ) τ) σ) ∧
+      ∀ (dim : VLeg → Nat) (bs : List (VLeg × VLeg)) (G TP TC U V : Asg VLeg → R) (rest : List (Asg VLeg → R)),
+        (Expr.pairLegs bs).Nodup → (∀ l ∈ Expr.pairLegs bs, l.isOwn) →
+        (∀ τ, sumPairs dim (gatePairs r.binds) (fun ρ => G ρ *
+            sumPairs dim [(glob p (Leg.nb c), glob c (Leg.nb p))] (fun ρ' => TP ρ' * TC ρ') ρ) τ =
+          sumPairs dim [(glob p Leg.bond, glob c Leg.bond)] (fun ρ => U ρ * V ρ) τ) →
+        (∀ f ∈ rest, DependsOn (EnvReads (glob p (Leg.nb c)) (glob c (Leg.nb p)) (glob p Leg.bond)
+          (glob c Leg.bond) (gatePairs r.binds)) f) →
+        DependsOn GateReads G →
+        ∀ σ, netValue dim (bs ++ [(glob p Leg.bond, glob c Leg.bond)]) (U :: V :: rest) σ =
+          sumPairs dim (gatePairs r.binds) (fun τ => G τ *
+            netValue dim (bs ++ [(glob p (Leg.nb c), glob c (Leg.nb p))]) (TP :: TC :: rest) τ) σ) ∧
+    (∃ r, twoSite c (mkNode c (some p) K oC) p (mkNode p pp (A ++ c :: B) oP) = some r ∧
+      (∀ (TP TC G : Asg Leg → R),
+        Built r.absorbed.legs (gateExpr (mkNode p pp (A ++ c :: B) oP).legs (mkNode c (some p) K oC).legs
+            [(Leg.nb c, Leg.nb p)] r.contr.nopen r.binds TP TC G) ∧
+        (gateExpr (mkNode p pp (A ++ c :: B) oP).legs (mkNode c (some p) K oC).legs
+            [(Leg.nb c, Leg.nb p)] r.contr.nopen r.binds TP TC G).labels.Nodup ∧
+        r.absorbed.legs.Perm (gateExpr (mkNode p pp (A ++ c :: B) oP).legs (mkNode c (some p) K oC).legs
+            [(Leg.nb c, Leg.nb p)] r.contr.nopen r.binds TP TC G).free ∧
+        ((gateExpr (mkNode p pp (A ++ c :: B) oP).legs (mkNode c (some p) K oC).legs
+            [(Leg.nb c, Leg.nb p)] r.contr.nopen r.binds TP TC G).LeavesLocal →
+          (gateExpr (mkNode p pp (A ++ c :: B) oP).legs (mkNode c (some p) K oC).legs
+            [(Leg.nb c, Leg.nb p)] r.contr.nopen r.binds TP TC G).SWF) ∧
+        ∀ (dim : Leg → Nat) (σ : Asg Leg),
+          (gateExpr (mkNode p pp (A ++ c :: B) oP).legs (mkNode c (some p) K oC).legs
+            [(Leg.nb c, Leg.nb p)] r.contr.nopen r.binds TP TC G).eval dim σ =
+          sumPairs dim r.binds (fun τ => G τ * sumPairs dim [(Leg.nb c, Leg.nb p)] (fun ρ => TP ρ * TC ρ) τ) σ) ∧
+      ∀ (dim : VLeg → Nat) (bs : List (VLeg × VLeg)) (G TP TC U V : Asg VLeg → R) (rest : List (Asg VLeg → R)),
+        (Expr.pairLegs bs).Nodup → (∀ l ∈ Expr.pairLegs bs, l.isOwn) →
+        (∀ τ, sumPairs dim (gatePairs r.binds) (fun ρ => G ρ *
+            sumPairs dim [(glob p (Leg.nb c), glob c (Leg.nb p))] (fun ρ' => TP ρ' * TC ρ') ρ) τ =
+          sumPairs dim [(glob c Leg.bond, glob p Leg.bond)] (fun ρ => U ρ * V ρ) τ) →
+        (∀ f ∈ rest, DependsOn (EnvReads (glob p (Leg.nb c)) (glob c (Leg.nb p)) (glob c Leg.bond)
+          (glob p Leg.bond) (gatePairs r.binds)) f) →
+        DependsOn GateReads G →
+        ∀ σ, netValue dim (bs ++ [(glob c Leg.bond, glob p Leg.bond)]) (U :: V :: rest) σ =
+          sumPairs dim (gatePairs r.binds) (fun τ => G τ *
+            netValue dim (bs ++ [(glob p (Leg.nb c), glob c (Leg.nb p))]) (TP :: TC :: rest) τ) σ) := by
+  have hne : p ≠ c := h.p_notin.2.2.2
+  refine ⟨⟨_, twoSite_parentFirst oP oC h, ?_, ?_⟩, ⟨_, twoSite_childFirst oP oC h, ?_, ?_⟩⟩
+  · intro TP TC G
+    exact pair_loop_core h oP oC (twoSite_parentFirst oP oC h) (contr_perm_parentFirst p c pp A B K oP oC) TP TC G
+  · intro dim bs G TP TC U V rest hbs1 hbs2 hUV hrest hG σ
+    exact two_site_value_core dim p c p c _ (nodup_gate_legs p c oP oC hne) (gatePairs_not_own _)
+      bs G TP TC _ _ U V rest hbs1 hbs2 (fun _ => rfl) (fun _ => rfl) hUV hrest hG σ
+  · intro TP TC G
+    exact pair_loop_core h oP oC (twoSite_childFirst oP oC h) (contr_perm_childFirst p c pp A B K oP oC) TP TC G
+  · intro dim bs G TP TC U V rest hbs1 hbs2 hUV hrest hG σ
+    exact two_site_value_core dim p c c p _ (nodup_gate_legs c p oC oP (fun e => hne e.symm))
+      (gatePairs_not_own _) bs G TP TC _ _ U V rest hbs1 hbs2 (fun _ => rfl) (fun _ => rfl) hUV hrest hG σ
+
+open Ptn.Ein in
+/-- **Single-site gate: the model's operation, value level.**  `absorb_into_open_legs` on a node whose
+neighbours are pairwise distinct: for all values `T` of the node tensor and `G` of the gate tensor the program
+`tensordot(T, G, binds)` builds the legs of the new node, is strongly well-formed for local tensors, and
+evaluates to `Σ_{binds} G·T`; at network level the network with that tensor in the place of `T` has the value
+`Σ_in G[out; in] · ψ[…, in, …]` - no hypothesis about a library routine is left. -/
+theorem single_site_gate_loop_value {R : Type} [CommSemiring R] (id : Nat) (par : Option Nat) (ch : List Nat)
+    (o : Nat) (hch : (par.toList ++ ch).Nodup) :
+    ∃ n' binds, singleSite (mkNode id par ch o) = some (n', binds) ∧
+      (∀ (T G : Asg Leg → R),
+        Built n'.legs (gateExpr1 (mkNode id par ch o).legs (mkNode id par ch o).nopen binds T G) ∧
+        (gateExpr1 (mkNode id par ch o).legs (mkNode id par ch o).nopen binds T G).labels.Nodup ∧
+        n'.legs.Perm (gateExpr1 (mkNode id par ch o).legs (mkNode id par ch o).nopen binds T G).free ∧
+        ((gateExpr1 (mkNode id par ch o).legs (mkNode id par ch o).nopen binds T G).LeavesLocal →
+          (gateExpr1 (mkNode id par ch o).legs (mkNode id par ch o).nopen binds T G).SWF) ∧
+        ∀ (dim : Leg → Nat) (σ : Asg Leg),
+          (gateExpr1 (mkNode id par ch o).legs (mkNode id par ch o).nopen binds T G).eval dim σ =
+            sumPairs dim binds (fun τ => G τ * T τ) σ) ∧
+      ∀ (dim : VLeg → Nat) (bs : List (VLeg × VLeg)) (G T : Asg VLeg → R) (rest : List (Asg VLeg → R)),
+        (Expr.pairLegs bs).Nodup → (∀ l ∈ Expr.pairLegs bs, l.isOwn) →
+        (∀ f ∈ rest, DependsOn (fun l => l ∉ Expr.pairLegs (gatePairs binds)) f) →
+        DependsOn GateReads G →
+        ∀ σ, netValue dim bs ((fun τ => sumPairs dim (gatePairs binds) (fun ρ => G ρ * T ρ) τ) :: rest) σ =
+          sumPairs dim (gatePairs binds) (fun τ => G τ * netValue dim bs (T :: rest) τ) σ := by
+  refine ⟨_, _, singleSite_mkNode id par ch o, ?_, ?_⟩
+  · intro T G
+    have hb : Built _ (gateExpr1 (mkNode id par ch o).legs (mkNode id par ch o).nopen _ T G) :=
+      singleSite_built G (Built.fresh (mkNode id par ch o).legs T) (singleSite_mkNode id par ch o)
+    have hnd : (gateExpr1 (mkNode id par ch o).legs (mkNode id par ch o).nopen
+        ((physL id o).zip ((List.range o).map Leg.gin)) T G).labels.Nodup := by
+      simp only [gateExpr1, Expr.labels]
+      exact single_labels_nodup id par ch hch o _
+    exact ⟨hb, hnd, (hb.sound hnd).1, fun hloc => hb.swf hnd hloc, fun dim σ => gateExpr1_eval _ _ _ _ _ dim σ⟩
+  · intro dim bs G T rest hbs1 hbs2 hrest hG σ
+    exact absorb_gate_value dim bs _ G T _ rest (fun _ => rfl) hrest (fun l hl h => h hl) hG
+      (fun l hl => own_not_gateReads l (hbs2 l hl))
+      (nodup_env_gate bs _ hbs1 hbs2 (nodup_gate_legs_single id o) (gatePairs_not_own _)) σ
+
+open Ptn.Ein in
+/-- **One TEBD time step, value level, only exact splits assumed.**  As `tebd_step_value`, but the chain of
+networks is a `LoopChain`: between consecutive networks the contracted and the absorbed tensor are the VALUES of
+the model's program (`Σ_gp G·Σ_bond T₁·T₂`, `two_site_gate_loop_value`; `Σ_gp G·T`,
+`single_site_gate_loop_value`) - no `tensordot` identity is a hypothesis - and the only contract of a library
+routine is the exact factorisation of `split_node_svd` for the two-site operators.  Then the state vector after
+the step is the ordered product of the gates applied to the state vector before: `ψ' = actRun … ψ`. -/
+theorem tebd_step_loop_value {R : Type} [CommSemiring R] (t : List TNode) (hwf : TreeWF t) (ops : List (List Nat))
+    (hv : ∀ op ∈ ops, ValidOp t op) (cur : Nat → GLeg) (rc : List Rec) (g : Nat) (hinv : RecInv cur rc g) :
+    ∃ t' rec', runOps ⟨t, cur, rc⟩ g ops = some ⟨t', (specRun (cur, rc) g ops).1, rec'⟩ ∧
+      ∀ (dim : SLeg → Nat) (G : Nat → Asg SLeg → R), (∀ i, DependsOn (GateReadsS i) (G i)) →
+        (∀ (leaves : List (Asg SLeg → R)) (σ : Asg SLeg),
+          netValue dim (recPairs rec') (gateLeaves G g ops leaves) σ =
+            actRun dim G cur g ops (netValue dim (recPairs rc) leaves) σ) ∧
+        (∀ ψ ψ' : Asg SLeg → R, LoopChain dim G cur g ops ψ ψ' → ψ' = actRun dim G cur g ops ψ) := by
+  obtain ⟨t', rec', h1, h2⟩ := tebd_step_value (R := R) t hwf ops hv cur rc g hinv
+  refine ⟨t', rec', h1, fun dim G hG => ⟨(h2 dim G hG).1, fun ψ ψ' h => loop_chain_value h⟩⟩
+
 /-! ### non-vacuity -/
 
 section ValueExamples
@@ -556,6 +704,35 @@ example : (∃ ψ', StepChain sDim sG GLeg.init 0 [[0, 1], []]
       | ph x => exact ⟨by simp, by simp⟩
       | gin a b => exact ⟨by simp, by simp⟩
       | virt a b v => exact hl.elim)
+
+/-- the exact-split-only chain of `tebd_step_loop_value` exists: the step `[[0, 1], []]` on integer tensors with
+the exact factorisation over a bond of dimension one -/
+example : ∃ ψ', LoopChain sDim sG GLeg.init 0 [[0, 1], []]
+      (netValue sDim ([] ++ [(SLeg.virt 0 1 0, SLeg.virt 1 0 0)]) [sT0, sT1]) ψ' := by
+  refine ⟨_, LoopChain.cons _ _ _ _ _ _ _
+    (LoopContract.exists_two sDim (sG 0) _ 0 1 sT0 sT1 _ _ (SLeg.virt 0 1 1) (SLeg.virt 1 0 1)
+      (S := sS) ?_ ?_ ?_ (fun h => h.1 rfl) (fun h => h.2 rfl) (by decide) (sG_dep 0) (by decide))
+    (LoopChain.cons _ _ _ _ _ _ _ (LoopContract.skip _) (LoopChain.nil _ _ _))⟩
+  · intro σ τ h
+    simp only [sT0]
+    rw [h (.virt 0 1 0) ⟨by decide, by decide⟩, h (.ph (.init 0)) ⟨by decide, by decide⟩]
+  · intro σ τ h
+    simp only [sT1]
+    rw [h (.virt 1 0 0) ⟨by decide, by decide⟩, h (.ph (.init 1)) ⟨by decide, by decide⟩]
+  · exact (sG_dep 0).mono (fun l hl => by
+      cases l with
+      | ph x => exact ⟨by simp, by simp⟩
+      | gin a b => exact ⟨by simp, by simp⟩
+      | virt a b v => exact hl.elim)
+
+/-- `two_site_gate_loop_value` / `single_site_gate_loop_value`: the hypotheses hold for the pair `1 — 2` below a
+parent with further children, and the program of the model is a concrete one: its binding record -/
+example : PairOK 1 2 (some 0) [5] [6] [7] ∧ ((some 0).toList ++ [5, 2, 6]).Nodup ∧
+    (twoSite 2 (mkNode 2 (some 1) [7] 1) 1 (mkNode 1 (some 0) [5, 2, 6] 1)).map (fun r =>
+      (gateExpr (R := Int) (mkNode 1 (some 0) [5, 2, 6] 1).legs (mkNode 2 (some 1) [7] 1).legs
+        [(Leg.nb 2, Leg.nb 1)] r.contr.nopen r.binds (fun _ => 1) (fun _ => 1) (fun _ => 1)).binds) =
+      some [(Leg.phys 2 0, Leg.gin 0), (Leg.phys 1 0, Leg.gin 1), (Leg.nb 2, Leg.nb 1)] := by
+  refine ⟨by unfold PairOK; decide, by decide, by decide⟩
 
 end ValueExamples
 
